@@ -216,6 +216,42 @@ def abstract_interface_obligation(chk):
                        [enc], goal, signature="mh_step:abstract-update", replay=replay, timeout_s=120)]
 
 
+_SCALE = [1.0]
+
+
+def second_use_obligation(chk):
+    """the same interface object used for two steps while something its log-density reads from OUTSIDE the state is replaced in between (same
+    shapes): every step must use the log-density as it is when the step is taken (no result of an earlier trace may be reused)"""
+    from liesel.goose.interface import DictInterface
+    from liesel.goose.mh import mh_step
+
+    def f(key, cur, prop):
+        iface = DictInterface(lambda s_: s_["lp"] * _SCALE[0])
+        _SCALE[0] = 1.0
+        i1, _ = mh_step(key, iface, {"lp": prop}, {"lp": cur})
+        _SCALE[0] = 3.0
+        i2, _ = mh_step(jax.random.fold_in(key, 1), iface, {"lp": prop}, {"lp": cur})
+        _SCALE[0] = 1.0
+        return dict(a1=i1.acceptance_prob, a2=i2.acceptance_prob)
+    cur, prop = z3.Real("su_cur"), z3.Real("su_prop")
+    sc = lambda v: np.array(v, dtype=object).reshape(())
+    key = jax.random.PRNGKey(4)
+    enc = chk.note_enc(Enc("mh_step twice with one interface object", f, (key, 1.0, 0.5), (root_key("k"), sc(cur), sc(prop)), key_roots={"k": key}))
+
+    def goal(V):
+        e1, e3 = V.exp(prop - cur), V.exp(3 * prop - 3 * cur)
+        return [], z3.And(cells(V.out["a1"])[0] == z3.If(e1 <= 1, e1, 1), cells(V.out["a2"])[0] == z3.If(e3 <= 1, e3, 1))
+
+    def replay(ob, model, rng):
+        out = f(jax.random.PRNGKey(0), jnp.float32(1.0), jnp.float32(0.5))
+        want = float(min(1.0, np.exp(3 * (0.5 - 1.0))))
+        got = float(out["a2"])
+        return dict(reproduced=abs(got - want) > 1e-4, inputs=dict(current_lp=1.0, proposed_lp=0.5, scale_first_step=1.0, scale_second_step=3.0),
+                    observed=dict(acceptance_prob_second_step=got, expected=want), note="the second step still uses the log-density of the first" if abs(got - want) > 1e-4 else "second step uses the current log-density")
+    return [Obligation("two steps with the same interface object: the second step's acceptance probability uses the log-density as it is at that step (scaled by 3), not a trace cached from the first", [enc], goal,
+                       signature="mh_step:second-use", replay=replay, timeout_s=120)]
+
+
 def main():
     chk = Check("C05")
     F = z3.Float32()
@@ -305,6 +341,7 @@ def main():
     chk.validated_points = pts
     obs_ += int_state_obligation(chk)
     obs_ += abstract_interface_obligation(chk)
+    obs_ += second_use_obligation(chk)
     chk.run(obs_)
     chk.bounds += ["all float32 values of current/proposed log-density, correction and one carried state scalar (incl. +-inf, NaN, -0)", "all 2^32 values of an int32 state entry outside the proposal",
                    "all 2^32 values of the random word behind jax.random.uniform", "no other bound: mh_step has no loops"]
